@@ -1,7 +1,7 @@
 import RotondaModel.Model.HttpPages
 /-! Line driver for the HttpPages model. One case per line.
 
-case   := 'req|' api '|' routers '|' rib '|' traces '|' method '|' path '|' query '|' deps
+case   := 'req|' api '|' routers '|' rib '|' traces '|' method '|' path '|' query '|' deps '|' world-tag (ignored)
         | 'idx|' (n (',' n)*)?                      -- extract_msg_indices of these message indices
 hex    := 'x' (two hex digits)*
 routers:= '-' | router (';' router)*                (connection order)
@@ -122,7 +122,7 @@ def runCase (v : Variant) (line : String) : String :=
     match (listOf ns ",").mapM (·.toNat?) with
     | some l => extractMsgIndices l
     | none => "bad-case"
-  | ["req", api, routers, rib, traces, m, path, q, deps] =>
+  | ["req", api, routers, rib, traces, m, path, q, deps, _tag] =>
     match parseHex api, (listOf routers ";").mapM parseRouter, rib.splitOn ":", (listOf traces ";").mapM parseTrace,
           parseHex path, parseOptHex q,
           (if deps == "-" then some {} else (words deps).foldlM parseDep ({} : DepTab)) with
